@@ -97,6 +97,7 @@ type Exec struct {
 	floatTexts []floatText
 	floatTextsJSON []floatText
 	inStdInit int
+	visibleEnd map[*Arr]int
 }
 
 func (x *Exec) unsupported(msg string) {
